@@ -276,7 +276,8 @@ func (g *gen) validation(prim string, idx int) *Validation {
 		}
 		return &Validation{Format: lp.Pick(r, formats)}
 	case 6:
-		return &Validation{Format: "date", MinLen: ip(1)}
+		// a format AND a pattern on one attribute: both have to hold ("1999-12-31" is a date and does not start with 20)
+		return &Validation{Format: "date", Pattern: "^20", MinLen: ip(1)}
 	default:
 		return &Validation{Pattern: "^[a-zé]*$", MaxLen: ip(4)}
 	}
